@@ -184,3 +184,4 @@ package alert
 //@       || (len(errs) > 0 && gf(t.handlers[i], delivered, int) == old(gf(t.handlers[i], delivered, int)))
 //@     invariant forall p *bufHandler :: (forall i int :: 0 <= i && i < _i ==> t.handlers[i] != p) ==>
 //@       gf(p, delivered, int) == old(gf(p, delivered, int))
+
